@@ -17,6 +17,13 @@ type closer struct {
 }
 
 func closers(w *World) []*closer {
+	// the tables Close works on must have the representation the rules talk about
+	for _, t := range []struct{ owner, field string }{{"scope", "children"}, {"scope", "instances"}, {"provider", "scopes"}} {
+		fv := w.Field(w.Godi, t.owner, t.field)
+		if _, isStruct := fv.Type().Underlying().(*types.Struct); isStruct {
+			undecidedf("role %q: %s.%s is a %s, no longer a plain table (the representation of the table changed: the rules about Close, which are written for the table and its lock as fields of %s, cannot be decided)", "close tables", t.owner, fv.Name(), types.TypeString(fv.Type(), func(p *types.Package) string { return p.Name() }), t.owner)
+		}
+	}
 	var out []*closer
 	for _, o := range []string{"scope", "provider"} {
 		fi := w.MustFn(w.Godi, "(*"+o+").Close")
